@@ -175,7 +175,7 @@ def triples(ctx):
             p2, o2 = gen.rand_pose(r, h, w)
             s2 = (g2, p2, o2, gen.rand_held(r, types, [0, 1, 2, 4]))
             origin = 'arbitrary'
-        elif kk < 0.9:
+        elif kk < 0.86:
             # the walkable layout changes between s and s' (a door opens / shuts, a wall appears / vanishes): distances must be measured
             # on each state's own layout
             if sum(1 for row in g for c in row if c[0] == TY['Exit']) != 1:
@@ -193,7 +193,7 @@ def triples(ctx):
             nb = [(p[0] + dy, p[1] + dx) for dy, dx in ((0, 0), (0, 0), (1, 0), (-1, 0), (0, 1), (0, -1)) if 0 <= p[0] + dy < h and 0 <= p[1] + dx < w]
             s2 = (g2, r.choice(nb), o, held)
             origin = 'layout-change'
-        elif kk < 0.905:
+        elif kk < 0.89:
             # a serpentine maze: walking distances far above height + width (no bound other than the number of cells is valid)
             mh, mw = r.choice([(7, 7), (7, 5), (9, 6)])
             rows = []
@@ -220,7 +220,7 @@ def triples(ctx):
             if end in (path[i], path[j]):
                 s2 = s
             origin = 'maze'
-        elif kk < 0.915:
+        elif kk < 0.91:
             # several exits, two or more of them in the beacon's colour: ANY exit of that colour is a good one
             bc = r.choice([1, 2, 3])
             g = tuple(tuple(F if c[0] in (TY['Exit'], TY['Beacon']) else c for c in row) for row in g)
